@@ -668,8 +668,17 @@ package xpath
 //@   loop 0 invariant[walk@C12,C01] walkerOK(d.level, pos(node)) && ancn(pos(node), d.level) == old(ancn(pos(node), d.level)) && pre(pos(node)) >= old(pre(pos(node))) && (old(first) || !first)
 //@   loop 1 invariant[climb@C12,C01] walkerOK(d.level, pos(node)) && ancn(pos(node), d.level) == old(ancn(pos(node), d.level)) && pre(pos(node)) + size(pos(node)) > old(pre(pos(node))) && !first
 //@ func (*followingQuery).Select$1
-//@   props C15
+//@   props C15 C01 C12
+//@   theory nav for C01 C12
+//@   uses tree-child tree-parent tree-depth tree-kinds
 //@   captures f != nil && node != nil
+//@   modifies heap(navpos), f.posit
+//@   let P0 = parent(pos(node))
+//@   let I0 = idx(pos(node))
+//@   let S0 = kind(pos(node)) != 2 && !isroot(pos(node))
+//@   ensures[next-matching-sibling@C01,C12] result != nil ==> result == node && S0 && kind(pos(node)) != 2 && !isroot(pos(node)) && parent(pos(node)) == P0 && I0 < idx(pos(node)) && idx(pos(node)) <= nch(P0) && predv(ref(f), pos(node)) && forall(j, Int, I0 < j && j < idx(pos(node)) ==> !predv(ref(f), child(P0, j)))
+//@   ensures[no-more-siblings@C01] result == nil && S0 ==> forall(j, Int, I0 < j && j <= nch(P0) ==> !predv(ref(f), child(P0, j)))
+//@   loop 0 invariant[scan@C01,C12] ite(S0, kind(pos(node)) != 2 && !isroot(pos(node)) && parent(pos(node)) == P0 && I0 <= idx(pos(node)) && idx(pos(node)) <= nch(P0) && forall(j, Int, I0 < j && j <= idx(pos(node)) ==> !predv(ref(f), child(P0, j))), pos(node) == old(pos(node)))
 //@ func (*followingQuery).Select$2
 //@   props C15
 //@   captures f != nil && node != nil
@@ -678,8 +687,17 @@ package xpath
 //@   conforms type iteratorFunc
 //@   captures node != nil
 //@ func (*precedingQuery).Select$1
-//@   props C15
+//@   props C15 C01 C12
+//@   theory nav for C01 C12
+//@   uses tree-child tree-parent tree-depth tree-kinds
 //@   captures p != nil && node != nil
+//@   modifies heap(navpos), p.posit
+//@   let P0 = parent(pos(node))
+//@   let I0 = idx(pos(node))
+//@   let S0 = kind(pos(node)) != 2 && !isroot(pos(node))
+//@   ensures[previous-matching-sibling@C01,C12] result != nil ==> result == node && S0 && kind(pos(node)) != 2 && !isroot(pos(node)) && parent(pos(node)) == P0 && 1 <= idx(pos(node)) && idx(pos(node)) < I0 && predv(ref(p), pos(node)) && forall(j, Int, idx(pos(node)) < j && j < I0 ==> !predv(ref(p), child(P0, j)))
+//@   ensures[no-more-siblings@C01] result == nil && S0 ==> forall(j, Int, 1 <= j && j < I0 ==> !predv(ref(p), child(P0, j)))
+//@   loop 0 invariant[scan@C01,C12] ite(S0, kind(pos(node)) != 2 && !isroot(pos(node)) && parent(pos(node)) == P0 && 1 <= idx(pos(node)) && idx(pos(node)) <= I0 && forall(j, Int, idx(pos(node)) <= j && j < I0 ==> !predv(ref(p), child(P0, j))), pos(node) == old(pos(node)))
 //@ func (*precedingQuery).Select$2
 //@   props C15
 //@   captures p != nil && node != nil
